@@ -34,3 +34,7 @@ def extra(ck, tu, X, tier, seed):
     from checks import xext
     xext.add_ext_obligations(ck, 4 if tier == "thorough" else 3, data_clauses=False)
     ck.replayers["x."] = replay_writer.replay
+    from checks import getters_common
+    getters_common.add_getters(ck, tu, X)
+    ck.replayers["get."] = replay_writer.replay
+    ck.replayers["py.get"] = replay_writer.replay
